@@ -23,11 +23,11 @@ SPECS = {
         "loops": {"0": {"kw": "for", "spec": """                invariant
                     forall|j: int, i: int| #![trigger it__.seq()[j]@[i]] 0 <= j < it__.index@ && 0 <= i < it__.seq()[j]@.len() ==> rrs@.contains(to_rr_spec(it__.seq()[j]@[i], *name)),
                     forall|x: int| 0 <= x < rrs@.len() ==> exists|j: int, i: int| 0 <= j < it__.index@ && 0 <= i < it__.seq()[j]@.len() && #[trigger] rrs@[x] == to_rr_spec(#[trigger] it__.seq()[j]@[i], *name),
-                    values_of(records@, it__.seq()),""",
-            "entry": "let ghost before__ = rrs@;"}},
+                    values_of(records@, it__.seq()),
+                    it__.index@ == it__.seq().len() ==> any_answer_ok(rrs@, records@, *name),""",
+            "entry": "let ghost before__ = rrs@; let ghost idx = it__.index@ as int;"}},
         "anchors": [{"after": "rrs.append(&mut zrs.iter().map(|zr| zr.to_rr(name)).collect());", "proof": """proof {
     let add = rrs_of(zrs@, *name);
-    let idx = it__.index@ as int;
     assert(rrs@ =~= before__ + add);
     assert forall|j: int, i: int| 0 <= j < idx + 1 && 0 <= i < it__.seq()[j]@.len() implies rrs@.contains(to_rr_spec(#[trigger] it__.seq()[j]@[i], *name)) by {
         if j < idx {
@@ -44,6 +44,19 @@ SPECS = {
             let i = x - before__.len();
             assert(rrs@[x] == add[i]);
             assert(rrs@[x] == to_rr_spec(it__.seq()[idx]@[i], *name));
+        }
+    }
+}
+assert(idx + 1 == it__.seq().len() ==> any_answer_ok(rrs@, records@, *name)) by {
+    if idx + 1 == it__.seq().len() {
+        assert forall|t: RecordType, i: int| #![trigger records@[t]@[i]] records@.contains_key(t) && 0 <= i < records@[t]@.len() implies rrs@.contains(to_rr_spec(records@[t]@[i], *name)) by {
+            let j = lemma_values_of_key(records@, it__.seq(), t);
+            assert(it__.seq()[j]@[i] == records@[t]@[i]);
+        }
+        assert forall|x: int| 0 <= x < rrs@.len() implies exists|t: RecordType, i: int| records@.contains_key(t) && 0 <= i < records@[t]@.len() && #[trigger] rrs@[x] == to_rr_spec(#[trigger] records@[t]@[i], *name) by {
+            let (j, i) = choose|j: int, i: int| 0 <= j < idx + 1 && 0 <= i < it__.seq()[j]@.len() && #[trigger] rrs@[x] == to_rr_spec(#[trigger] it__.seq()[j]@[i], *name);
+            let t = lemma_values_of_index(records@, it__.seq(), j);
+            assert(rrs@[x] == to_rr_spec(records@[t]@[i], *name));
         }
     }
 }"""}],
